@@ -107,12 +107,78 @@ def run(tier):
                 bad = [o for o in e["reads"] if o["fam"] == fam and (o["r0"] != o["r1"] or o["ms"] < 0.8 * e["T"])][:2]
                 verdict.add(sig, "blocking RPC: %s on %s across '%s': %s" % (pred, fam, e["desc"], json.dumps(bad)[:400]),
                             {"kind": "bq", "seed": seed, "n": bn, "len": blen, "event": line, "predicate": pred, "family": fam, "desc": e["desc"]})
+        # catalog index rules: spec/CatIndex.tla models what every catalog write moves in the index table and what every catalog /
+        # health read reports. (1) TLC: no read of the model misses a change or reports a decreasing index, all histories up to the
+        # bound; the recorded finding (a check id re-registered under another service) is shown on the model by CatIndex_moved.cfg,
+        # which must FAIL. (2) every transition of the model's graph up to depth 2 is replayed into the real store (all in the
+        # thorough tier, a seed-rotated third in the quick tier) plus seeded random histories over a wider universe; TLC judges C06
+        # on the observations and, separately, the conformance of the code's index rows / read indexes / read results with the model.
+        def cicfg(name):
+            t = open(os.path.join(vf.SPEC, name)).read()
+            return t if tier == "quick" else t.replace("Small = TRUE", "Small = FALSE")
+        ci = vf.tlc_mc("CatIndexMC", "ci_mc.cfg", files={"ci_mc.cfg": cicfg("CatIndex_mc.cfg")}, timeout=6000, heap="12g", workers=min(12, vf.NCPU))
+        mv = vf.tlc("CatIndexMC", "CatIndex_moved.cfg", workers=min(8, vf.NCPU), timeout=1500, heap="8g", quiet=True)
+        if mv.violated != "PropNoMissedChange":
+            raise vf.Infra("CatIndex_moved.cfg: the model no longer shows the recorded finding (violated=%s rc=%s)" % (mv.violated, mv.rc))
+        cg = vf.tlc_gen("CatIndexMC", "ci_gen.cfg", files={"ci_gen.cfg": cicfg("CatIndex_gen.cfg")}, timeout=3000)
+        behs = vf.dedup_behaviours(cg.traces)
+        if tier == "quick":
+            behs = [b for i, b in enumerate(behs) if i % 3 == seed % 3]
+        cibin = vf.build("h-catidx")
+        ci_cov = {"model_states": ci.distinct, "model_transitions": ci.generated, "moved_check_model_counterexample": True,
+                  "graph_transitions_depth2": len(cg.traces), "behaviours_replayed": len(behs), "events": 0, "obs": 0, "drift_steps": 0, "drift": {}}
+        ci_changed = set()
+        runs = [("replay", ["replay", "-in", os.path.join(work, "cibehs.json")])]
+        json.dump(behs, open(os.path.join(work, "cibehs.json"), "w"))
+        rn, rl = (12, 100) if tier == "quick" else (120, 150)
+        runs.append(("random", ["random", "-seed", str(seed), "-n", str(rn), "-len", str(rl)]))
+        for kind, args in runs:
+            tpc = os.path.join(work, "ci-%s.ndjson" % kind)
+            pr = vf.run_harness(cibin, args + ["-out", tpc], timeout=7200)
+            if pr.returncode != 0:
+                raise vf.Infra("h-catidx %s failed: %s" % (kind, pr.stderr[-2000:]))
+            cmeta = json.loads(pr.stdout.strip().splitlines()[-1])
+            rc_ = vf.tlc_validate("CatIndexTrace", "CatIndexTrace.cfg", tpc, nevents=cmeta["events"], timeout=6000, heap="12g")
+            crow = vf.read_ndjson(tpc)
+            ci_cov["events"] += cmeta["events"]
+            n_hist += cmeta["behaviours"]
+            for e in crow:
+                ci_cov["obs"] += len(e["obs"])
+                for o in e["obs"]:
+                    if o["r0"] != o["r1"]:
+                        ci_changed.add(o["q"])
+            if kind == "random" and crow and len(samples) < 4:
+                e = next((x for x in crow if x["obs"]), crow[0])
+                samples.append({"desc": "catalog index rules: %s" % json.dumps(e["cmd"], sort_keys=True), "idx": e["cmd"]["idx"], "obs": e["obs"][:3]})
+            for line, names in rc_.rejects:
+                e = crow[line - 1]
+                drift = [x for x in names if x.startswith("model:")]
+                if drift:
+                    ci_cov["drift_steps"] += 1
+                    for x in drift:
+                        ci_cov["drift"][x] = ci_cov["drift"].get(x, 0) + 1
+                    if ci_cov["drift_steps"] <= 3:
+                        vf.log("MODEL-DRIFT (not a verdict) CatIndex: %s at %s history %d entry %d: %s" % (drift, kind, e["h"], e["i"], json.dumps(e["cmd"], sort_keys=True)[:300]))
+                for nm in names:
+                    if nm.startswith("model:"):
+                        continue
+                    pred, fam = nm.split(":", 1)
+                    hits["catidx:" + nm] = hits.get("catidx:" + nm, 0) + 1
+                    hist = [x["cmd"] for x in crow if x["h"] == e["h"] and x["i"] <= e["i"]]
+                    bad = [o for o in e["obs"] if o["fam"] == fam][:2]
+                    verdict.add("%s:%s:%s:%s" % (PID, pred, fam, e["cmd"]["t"]),
+                                "%s on %s across %s (%s history %d entry %d): %s" % (pred, fam, json.dumps(e["cmd"], sort_keys=True)[:200], kind, e["h"], e["i"], json.dumps(bad)[:300]),
+                                {"kind": "catidx", "cmds": hist, "predicate": pred, "family": fam})
+        ci_cov["reads_changed"] = len(ci_changed)
+        if len(ci_changed) < 12:
+            raise vf.Infra("vacuity: only %d catalog reads of the CatIndex battery ever changed" % len(ci_changed))
         if bq_changed < 40:
             raise vf.Infra("vacuity: only %d parked calls saw their read change" % bq_changed)
         n_new = verdict.finish()
         cov = {"blocking_rpc": {"servers": bn, "writes": bmeta["events"], "parked_calls": bq_calls, "parked_calls_whose_read_changed": bq_changed,
                                 "ambiguous_timing_not_judged": bq_ambiguous, "model_states": bq.distinct, "model_transitions": bq.generated},
-               "states": m.distinct + bq.distinct, "transitions": m.generated + bq.generated, "traces_validated_against_impl": n_hist, "samples": samples,
+               "catalog_index_rules": ci_cov,
+               "states": m.distinct + bq.distinct + ci.distinct, "transitions": m.generated + bq.generated + ci.generated, "traces_validated_against_impl": n_hist, "samples": samples,
                "evaluations": n_events * nq, "distinct_nontrivial": len(changed),
                "rule": "around every command of seeded logs over every FSM command type the whole read battery (%d reads over every endpoint family of the "
                        "property, local and one peer) is evaluated before and after, each read with its own WatchSet; TLC judges every read whose index or "
@@ -120,6 +186,7 @@ def run(tier):
                        "exercised)" % nq,
                "reads_in_battery": nq, "observations_judged": n_obs, "predicate_doc": DOC, "rejected_by_predicate": hits,
                "known_findings_matched": verdict.known_hit, "exhaustive": False,
+               "model_check_catalog": "CatIndexMC: PropNoMissedChange + PropMonotone over 17 catalog/health reads for all register/deregister histories of 3 commands (2 nodes, 2 service ids, 2 names, 2 checks)",
                "model_check": "StoreMC_c06kv: PropKVListIndex (NoMissedChange + Monotone for KV get/list index rule) for all KV/session histories up to depth %d" % depth}
         if len(changed) < 60:
             raise vf.Infra("vacuity: only %d reads ever changed their result" % len(changed))
@@ -133,8 +200,34 @@ def run(tier):
         shutil.rmtree(work, ignore_errors=True)
 
 
+def replay_catidx(path, rp):
+    binary = vf.build("h-catidx")
+    work = vf.new_scratch("verif-replay-")
+    try:
+        bp = os.path.join(work, "b.json")
+        json.dump([rp["cmds"]], open(bp, "w"))
+        tp = os.path.join(work, "t.ndjson")
+        pr = vf.run_harness(binary, ["replay", "-in", bp, "-out", tp], timeout=3600)
+        if pr.returncode != 0:
+            raise vf.Infra(pr.stderr[-2000:])
+        meta = json.loads(pr.stdout)
+        r = vf.tlc_validate("CatIndexTrace", "CatIndexTrace.cfg", tp, nevents=meta["events"])
+        want = rp["predicate"] + ":" + rp["family"]
+        bad = [(l, ns) for l, ns in r.rejects if want in ns and l == meta["events"]]
+        if bad:
+            print("rejected: %s at the last command" % want)
+            print("VIOLATION property=%s replay=%s" % (PID, path))
+            return 1
+        print("replay accepted")
+        return 0
+    finally:
+        shutil.rmtree(work, ignore_errors=True)
+
+
 def replay(path):
     rp = json.load(open(path))["replay"]
+    if rp.get("kind") == "catidx":
+        return replay_catidx(path, rp)
     binary = vf.build("h-fsm")
     work = vf.new_scratch("verif-replay-")
     try:
